@@ -11,14 +11,17 @@ def sh(cmd, cwd=None, timeout=3600):
 area, which = sys.argv[1], sys.argv[2]
 src = f"/tmp/refac-out/{area}"
 dst = f"/verif/seeded/refactor-{area}-{which}"
-if which.startswith("Z"):  # round 5: the round-4 feature work with its slip repaired
+if which.startswith("K"):  # round 8: the round-7 work with its slip repaired
+    src = f"/tmp/r8-out/{area}"
+    dst = f"/verif/seeded/correct-{area}-{which}"
+elif which.startswith("Z"):  # round 5: the round-4 feature work with its slip repaired
     src = f"/tmp/r5-out/{area}"
     dst = f"/verif/seeded/correct-{area}-{which}"
 os.makedirs(dst, exist_ok=True)
 if os.path.exists(f"{src}/{which}.diff"):
     shutil.copy(f"{src}/{which}.diff", f"{dst}/patch.diff")
     if os.path.exists(f"{src}/{which}.md"): shutil.copy(f"{src}/{which}.md", f"{dst}/notes.md")
-meta = {"kind": "corrected feature work (round 5)" if which.startswith("Z") else "behaviour-preserving refactor", "area": area, "variant": which}
+meta = {"kind": "corrected work (round 5/8)" if which[:1] in "ZK" else "behaviour-preserving refactor", "area": area, "variant": which}
 rc, out = sh("git -C /repo status --porcelain")
 if out.strip():
     print("repo not clean"); sys.exit(2)
